@@ -5,8 +5,9 @@ C31 — A solicited stream has at most one owner.
 
 Model: `Bifrost.Wrappers.Sms` — `solicitMountedStream` (`link/solicit/solicit-mounted.go`) and the
 value creation of `resolveMatch` (`link/solicit/controller/controller.go`) as fixed by
-"fix: AcceptMountedStream could return a stream that Close had just closed" and
-"fix: a solicited stream matching several directives was handed to several owners".
+"fix: AcceptMountedStream could return a stream that Close had just closed",
+"fix: a solicited stream matching several directives was handed to several owners" and
+"fix: a solicited stream that no directive takes was never closed".
 Every `AcceptMountedStream` / `Close` call is one critical section under `s.mu`, so all
 interleavings of concurrent calls are all op sequences. Theorems quantify over ALL op sequences:
 any number of streams, any number of matching directives per stream (`resolve k`), any number of
@@ -86,6 +87,15 @@ theorem one_value_per_stream (s : State) (k : Nat) :
     (step s (.resolve k)).2 = .created 1 k ∧
     (step s (.resolve k)).1.wrappers.length = s.wrappers.length + 1 := by
   simp [step]
+
+/-- A stream that matches no local directive is handed to nobody: `resolveMatch` closes it, and
+the value it made answers every later `AcceptMountedStream` with the error. -/
+theorem unmatched_stream_closed (s : State) :
+    (step s (.resolve 0)).1.closed = s.nextStream :: s.closed ∧
+    acceptRes (step s (.resolve 0)).1 s.wrappers.length = .err := by
+  constructor
+  · simp [step]
+  · simp [acceptRes, step]
 
 /-! ### The code before the fixes violates all three clauses -/
 
